@@ -7,6 +7,7 @@ import os
 import shutil
 import subprocess
 import tempfile
+import time
 
 from vlib import common
 
@@ -44,10 +45,34 @@ def build_tmdrive():
             p = common.sh(["go", "build", "-tags", "verif", "-o", binp, "./cmd/tmdrive"], cwd=os.path.join(d, "src"), timeout=900)
             if p.returncode != 0:
                 raise common.CheckError("tmdrive does not build against %s (verif hooks missing?):\n%s" % (common.REPO, p.stderr[-3000:]))
-            for x in os.listdir(common.WORK):
-                if x.startswith("t3-") and os.path.join(common.WORK, x) != d:
-                    shutil.rmtree(os.path.join(common.WORK, x), ignore_errors=True)
+        # other checks (other repo hashes: seeded runs with VERIF_REPO) may be using their own t3-* build
+        # right now: prune only old ones, never the recent
+        olds = sorted((os.path.join(common.WORK, x) for x in os.listdir(common.WORK)
+                       if x.startswith("t3-") and os.path.join(common.WORK, x) != d), key=os.path.getmtime)
+        for x in olds[:-6]:
+            if time.time() - os.path.getmtime(x) > 3600:
+                shutil.rmtree(x, ignore_errors=True)
     return binp
+
+
+def private_copy(path, tmp, lock=None):
+    """Copies a binary into this run's scratch directory: build caches under .work (tools-*, repo-*, t3-*)
+    and the Lean driver are replaced or pruned by concurrent checks while this one is still running."""
+    dst = os.path.join(tmp, "bin-" + os.path.basename(path))
+    if not os.path.exists(dst):
+        for attempt in range(3):
+            try:
+                if lock:
+                    with common.Lock(lock):
+                        shutil.copy2(path, dst)
+                else:
+                    shutil.copy2(path, dst)
+                break
+            except OSError:
+                if attempt == 2:
+                    raise common.CheckError("cannot copy %s (removed by a concurrent build?)" % path)
+                time.sleep(1)
+    return dst
 
 
 def run_lines(binary, path_in, path_out, timeout=3600):
@@ -60,10 +85,11 @@ def run_lines(binary, path_in, path_out, timeout=3600):
 def t3(rep, streams, what):
     """Runs the T3 streams whose name starts with one of `streams`. A difference is a violation without
     failing input of the property itself (the correspondence broke); the replay holds the op line."""
-    tm = build_tmdrive()
-    gen = common.tool_path("gennames")
     tmp = tempfile.mkdtemp(prefix="verif-t3-")
     try:
+        tm = private_copy(build_tmdrive(), tmp, "t3")
+        gen = private_copy(common.tool_path("gennames"), tmp, "tools")
+        drv = private_copy(common.driver_path(), tmp, "lake")
         args = [gen, "-mode", "t3", "-out", tmp, "-seed", str(rep.seed)]
         if rep.tier == "thorough":
             args.append("-thorough")
@@ -76,7 +102,7 @@ def t3(rep, streams, what):
                 keep.append(l)
         with open(os.path.join(tmp, "sel.txt"), "w") as f:
             f.write("\n".join(keep) + "\n")
-        run_lines(common.driver_path(), os.path.join(tmp, "sel.txt"), os.path.join(tmp, "model.txt"))
+        run_lines(drv, os.path.join(tmp, "sel.txt"), os.path.join(tmp, "model.txt"))
         run_lines(tm, os.path.join(tmp, "sel.txt"), os.path.join(tmp, "impl.txt"))
         m = open(os.path.join(tmp, "model.txt")).read().splitlines()
         i = open(os.path.join(tmp, "impl.txt")).read().splitlines()
@@ -247,6 +273,12 @@ def spec_verdict(case, variant):
     return "ok"
 
 
+def unqual(t):
+    """type string without package qualifiers (the generated file chooses its own import aliases)"""
+    import re
+    return re.sub(r"\b\w+\.", "", t)
+
+
 def go_params(case, typs):
     for t in case["types"]:
         w = t["wire"].replace(" ", ",")
@@ -260,7 +292,7 @@ def compare_case(case, variant, obs, model, check_types=True):
     """Returns (spec_problem, corr_problem): strings or None."""
     spec = None
     corr = None
-    want = spec_verdict(case, variant) if case["stream"] in ("exhaustive", "exhaustive-arity", "random") else None
+    want = spec_verdict(case, variant) if case["stream"] in ("exhaustive", "exhaustive-arity", "random", "imported") else None
     if obs["class"] in ("timeout", "other", "panic"):
         spec = "goderive ended with %s (rc=%s): %s" % (obs["class"], obs["rc"], obs.get("stderr", "")[:300])
         return spec, corr
@@ -316,7 +348,7 @@ def compare_case(case, variant, obs, model, check_types=True):
                         f = fn
                 if f is None:
                     corr = "model registers %s%s, goderive generated no function of that name" % (name, typs)
-                elif want_params is not None and f["params"] != want_params:
+                elif want_params is not None and [unqual(x) for x in f["params"]] != [unqual(x) for x in want_params]:
                     corr = "model registers %s%s, goderive generated %s(%s)" % (name, typs, f["name"], ",".join(f["params"]))
     return spec, corr
 
@@ -324,15 +356,16 @@ def compare_case(case, variant, obs, model, check_types=True):
 def t2(rep, prop, handle):
     """Generates the cases of `prop`, runs the model and the real binary, hands every
     (case, variant, obs, model) to `handle`. Returns stats."""
-    gen = common.tool_path("gennames")
-    _, binp = common.build_goderive()
     tmp = tempfile.mkdtemp(prefix="verif-t2-")
     try:
+        gen = private_copy(common.tool_path("gennames"), tmp, "tools")
+        binp = private_copy(common.build_goderive()[1], tmp)
+        drv = private_copy(common.driver_path(), tmp, "lake")
         args = [gen, "-mode", "cases", "-prop", prop, "-out", tmp, "-seed", str(rep.seed)]
         if rep.tier == "thorough":
             args.append("-thorough")
         common.sh(args, check=True, timeout=900)
-        run_lines(common.driver_path(), os.path.join(tmp, "model_ops.txt"), os.path.join(tmp, "model.txt"))
+        run_lines(drv, os.path.join(tmp, "model_ops.txt"), os.path.join(tmp, "model.txt"))
         p = common.sh([gen, "-mode", "run", "-out", tmp, "-goderive", binp, "-jobs", str(min(16, os.cpu_count() or 4))], timeout=7200)
         if p.returncode != 0:
             raise common.CheckError("gennames -mode run failed: " + p.stderr[-2000:])
